@@ -3,6 +3,8 @@
 package zzverif
 
 import (
+	"unicode"
+	"unicode/utf8"
 	lucene "github.com/grindlemire/go-lucene"
 	"github.com/grindlemire/go-lucene/internal/lex"
 )
@@ -73,47 +75,63 @@ func H_LexSegment() {
 // otherwise): does the input contain a character that cannot start a token, a quote that is not
 // closed by the same quote character, or a regexp whose closing slash is missing?
 func refLexError(in string) (hasErr bool, known bool) {
-	for i := 0; i < len(in); i++ {
-		if in[i] >= 0x80 {
+	// invalid UTF-8 is left to the lexer's own verdict
+	for i := 0; i < len(in); {
+		r, w := utf8.DecodeRuneInString(in[i:])
+		if r == utf8.RuneError && w == 1 {
 			return false, false
 		}
+		i += w
 	}
-	alnum := func(c byte) bool {
-		return c == '_' || (c >= '0' && c <= '9') || (c >= 'a' && c <= 'z') || (c >= 'A' && c <= 'Z')
+	wordRune := func(r rune) bool {
+		return r == '_' || unicode.IsLetter(r) || unicode.IsDigit(r)
 	}
 	i := 0
 	for i < len(in) {
-		c := in[i]
+		r, w := utf8.DecodeRuneInString(in[i:])
+		nextIsDigit := false
+		if i+w < len(in) {
+			r2, _ := utf8.DecodeRuneInString(in[i+w:])
+			nextIsDigit = unicode.IsDigit(r2)
+		}
 		switch {
-		case c == ' ' || c == '\t' || c == '\r' || c == '\n':
-			i++
-		case alnum(c) || c == '*' || c == '?' || c == '\\' || (c == '-' && i+1 < len(in) && in[i+1] >= '0' && in[i+1] <= '9'):
+		case r == ' ' || r == '\t' || r == '\r' || r == '\n':
+			i += w
+		case wordRune(r) || r == '*' || r == '?' || r == '\\' || (r == '-' && nextIsDigit):
 			for i < len(in) {
-				w := in[i]
-				if w == '\\' {
-					i += 2 // the escaped character belongs to the word, whatever it is
-				} else if alnum(w) || w == '*' || w == '?' || w == '.' || w == '-' {
-					i++
+				c, cw := utf8.DecodeRuneInString(in[i:])
+				if c == '\\' {
+					i += cw
+					if i < len(in) { // the escaped character belongs to the word, whatever it is
+						_, ew := utf8.DecodeRuneInString(in[i:])
+						i += ew
+					}
+				} else if wordRune(c) || c == '*' || c == '?' || c == '.' || c == '-' {
+					i += cw
 				} else {
 					break
 				}
 			}
-		case rtIn(c, "()[]{}:+=>~^<-"):
-			i++
-		case c == '"' || c == '\'':
+		case r < 0x80 && rtIn(byte(r), "()[]{}:+=>~^<-"):
+			i += w
+		case r == '"' || r == '\'':
 			j := i + 1
-			for j < len(in) && in[j] != c {
+			for j < len(in) && in[j] != byte(r) {
 				j++
 			}
 			if j >= len(in) {
 				return true, true
 			}
 			i = j + 1
-		case c == '/':
+		case r == '/':
 			j := i + 1
 			for j < len(in) && in[j] != '/' {
 				if in[j] == '\\' {
 					j++
+					if j < len(in) { // the escape takes one character, of whatever width
+						_, ew := utf8.DecodeRuneInString(in[j:])
+						j += ew - 1
+					}
 				}
 				j++
 			}
@@ -122,7 +140,7 @@ func refLexError(in string) (hasErr bool, known bool) {
 			}
 			i = j + 1
 		default:
-			return true, true
+			return true, true // a character no token can start with
 		}
 	}
 	return false, true
